@@ -48,6 +48,25 @@ type xCase struct {
 	given *xmss.XMSS
 }
 
+// heldOther returns a wallet with OTHER parameters (height and hash function) than the case's, built once per process
+// per parameter set; handling it while the case's wallets are held must not affect them.
+var others = map[string]*xmss.XMSS{}
+
+func heldOther(c *xCase) *xmss.XMSS {
+	h := 4
+	if c.H == 4 {
+		h = 6
+	}
+	hf := xmss.HashFunction((c.Hash + 1) % 3)
+	k := fmt.Sprintf("%s/%d/%d", c.Mode, h, hf)
+	if o, ok := others[k]; ok {
+		return o
+	}
+	o := pu.NewXMSS(pu.DetBytes(uint64(h)*131+uint64(hf), 48), h, hf)
+	others[k] = o
+	return o
+}
+
 func sameXMSS(tag string, a, b *xmss.XMSS) (string, string) {
 	if a.GetPK() != b.GetPK() {
 		return "xmss/pk", tag + ": public key differs"
@@ -85,13 +104,25 @@ func runX(r *ev.Recorder, c *xCase) (string, string) {
 	if int(orig.GetHeight()) != c.H {
 		return "xmss/height", fmt.Sprintf("%s: GetHeight = %d", tag, orig.GetHeight())
 	}
+	// the secrets are exported FIRST and held by the caller while other wallets export theirs; what is held must not change
+	heldMnemonic, heldHex := orig.GetMnemonic(), orig.GetHexSeed()
+	mnemonicCopy, hexCopy := strings.Clone(heldMnemonic), strings.Clone(heldHex)
+	if other := heldOther(c); other != nil {
+		_ = other.GetMnemonic()
+		_ = other.GetHexSeed()
+		_ = other.GetAddress()
+	}
+	_ = misc.SeedBinToMnemonic(pu.Arr48(pu.DetBytes(uint64(c.Jump)+3, 48)))
+	if heldMnemonic != mnemonicCopy || heldHex != hexCopy {
+		return "xmss/exported-secret-changes-later", tag + ": a mnemonic / hex seed string returned earlier changed after other wallets exported theirs"
+	}
 	routes := map[string]func() *xmss.XMSS{
 		"extended-seed": func() *xmss.XMSS { return xmss.NewXMSSFromExtendedSeed(orig.GetExtendedSeed()) },
 		"mnemonic": func() *xmss.XMSS {
-			return xmss.NewXMSSFromExtendedSeed(misc.MnemonicToExtendedSeedBin(orig.GetMnemonic()))
+			return xmss.NewXMSSFromExtendedSeed(misc.MnemonicToExtendedSeedBin(heldMnemonic))
 		},
 		"hex-seed": func() *xmss.XMSS {
-			hs := orig.GetHexSeed()
+			hs := heldHex
 			if !strings.HasPrefix(hs, "0x") {
 				panic("hex seed lacks the 0x prefix: " + hs[:4])
 			}
@@ -120,6 +151,19 @@ func runX(r *ev.Recorder, c *xCase) (string, string) {
 		keys = append(keys, k)
 		names = append(names, name)
 		r.Eval(1)
+	}
+	// the rebuilt wallets are HELD while the process handles other wallets / keys with other parameters
+	if other := heldOther(c); other != nil {
+		opk := other.GetPK()
+		_ = xmss.GetXMSSAddressFromPK(opk)
+		_ = xmss.IsValidXMSSAddress(other.GetAddress())
+		ev.Try(func() { xmss.Verify([]byte("x"), make([]byte, 2180+32*int(other.GetHeight())), opk) })
+		_ = xmss.NewXMSSFromExtendedSeed(other.GetExtendedSeed())
+	}
+	for i, k := range keys {
+		if key, msg := sameXMSS(tag+" via "+names[i]+" (re-checked after other wallets were handled)", orig, k); key != "" {
+			return key + "/held/" + names[i], msg
+		}
 	}
 	// signatures: index 0, index 1, and after one forward jump
 	last := uint32(1)<<uint(c.H) - 1
@@ -216,19 +260,28 @@ func runD(r *ev.Recorder, c *dCase) (string, string) {
 			return "dilithium/constructor-error", err.Error()
 		}
 	}
+	heldMnemonic, heldHex := orig.GetMnemonic(), orig.GetHexSeed()
+	mnemonicCopy, hexCopy := strings.Clone(heldMnemonic), strings.Clone(heldHex)
+	if od, err := pu.DilKey(pu.DetBytes(uint64(len(c.Msgs))+uint64(c.Seed[0])+9, 48)); err == nil {
+		_ = od.GetMnemonic()
+		_ = od.GetHexSeed()
+	}
+	if heldMnemonic != mnemonicCopy || heldHex != hexCopy {
+		return "dilithium/exported-secret-changes-later", "a mnemonic / hex seed string returned earlier changed after another key exported its own"
+	}
 	routes := []struct {
 		name string
 		f    func() (*dilithium.Dilithium, error)
 	}{
 		{"seed", func() (*dilithium.Dilithium, error) { return dilithium.NewDilithiumFromSeed(orig.GetSeed()) }},
 		{"hex-seed", func() (*dilithium.Dilithium, error) {
-			hs := orig.GetHexSeed()
+			hs := heldHex
 			if !strings.HasPrefix(hs, "0x") {
 				return nil, fmt.Errorf("hex seed lacks the 0x prefix")
 			}
 			return dilithium.NewDilithiumFromHexSeed(hs[2:])
 		}},
-		{"mnemonic", func() (*dilithium.Dilithium, error) { return dilithium.NewDilithiumFromMnemonic(orig.GetMnemonic()) }},
+		{"mnemonic", func() (*dilithium.Dilithium, error) { return dilithium.NewDilithiumFromMnemonic(heldMnemonic) }},
 	}
 	for _, rt := range routes {
 		var k *dilithium.Dilithium
